@@ -21,7 +21,9 @@ const MIX_THOROUGH: Mix = Mix { input: [50, 30, 8, 8, 4], max_events: 14, max_de
 
 /// The invariant itself.  Returns a violation description.
 pub fn pipeline_invariant(slot: &mut Slot, st: &mut Stats) -> Option<Violation> {
-    let hdr = hdr_last(&slot.state)?;
+    let Some(hdr) = hdr_last(&slot.state) else {
+        return Some(Violation { class: "C13: no picture exposed after a successful decode".into(), detail: "decode_next_picture returned Ok but get_last_picture() is None".into() });
+    };
     let r = guarded(|| {
         let p = slot.state.get_last_picture()?;
         let (w, h) = p.format().into_width_and_height()?;
